@@ -158,4 +158,34 @@ CLAIMS['C09'] = {
     'technique': 'space-kind and length-kind abstract interpretation, argument-wiring check',
 }
 
+CLAIMS['C03'] = {
+    'text': 'PARTIAL: per concrete family, each of pdf/logpdf/cdf/ppf/rvs delegates to the SciPy function of the same kind with the '
+            'stored parameters, and a family whose MODEL_CLASS is not a distribution object overrides every delegating method (the '
+            'rule that exposed fixed defect F15); aliases and the selecting wrapper forward to the same-named method; parameter keys '
+            'of _fit/_fit_constant equal SciPy\'s names and unpacked fit results are stored under the right names; the degenerate-'
+            'distribution state machine (exactly four replaced methods and their undo, right-continuous unit step, _is_constant / '
+            '_extract_constant agree with _fit_constant); wiring of the KDE quantile search (root function, masks, brackets, +-inf). '
+            'Monotonicity, limits, pdf = CDF\', inverse identities and the KDE CDF formula are not decided.',
+    'note': NOTE,
+    'technique': 'per-subclass delegation table against the SciPy contract table; sibling agreement; mask/closure wiring checks',
+}
+CLAIMS['C04'] = {
+    'text': 'PARTIAL: location/scale equivariance of every parametric _fit by dimension typing (loc is a point of the data axis, scale a '
+            'length, shapes and standardised truncation bounds dimensionless; also SciPy fit keywords, optimiser start values and '
+            'bounds), closed-form estimators (mean / population std; min / range), user-supplied truncation bounds honoured, KDE '
+            'options plumbed into every kernel estimate and the optional resampling. One genuine defect is recorded (F14: the scale '
+            'bound of TruncatedGaussian is a squared length). Closeness to the generating/empirical CDF is statistical, not decided.',
+    'note': NOTE,
+    'technique': 'affine dimension-kind abstract interpretation (type-level encoding of equivariance); estimator idioms',
+}
+CLAIMS['C18'] = {
+    'text': 'PARTIAL: the bracket precondition mentions f at both ends with the right polarity before the loop (assert or raise); '
+            'bisect moves an end only to the midpoint under the matching sign mask with the same mask on both sides and returns the '
+            'midpoint; chandrupatla clips every evaluated point into the bracket and its tracked points only receive bracket points; '
+            'reductions over the lane axis occur only in assertions and loop-exit tests; the scalar and vector interpolation formulas '
+            'have the same AC normal form; bisect\'s default tolerance and exit test. Convergence and accuracy are numeric, not decided.',
+    'note': NOTE,
+    'technique': 'mask-agreement and containment idioms, lane-reduction enumeration, AC normal form of sibling formulas',
+}
+
 NOT_APPLICABLE = {}
